@@ -929,6 +929,16 @@ func (fx *fctx) intrinsic(st *State, name string, ce *ast.CallExpr) ([]*Value, b
 			e.unsup(ce, "rngSame outside two-state clause")
 		}
 		return []*Value{{T: t, Tm: ts.Eq(e.heapGet(st, "rng.pos", ArrSort(SInt)), e.heapGet(fx.oldState, "rng.pos", ArrSort(SInt)))}}, true
+	case "rngOnly":
+		// rngOnly(src): no source other than src was drawn from since the old state
+		if fx.oldState == nil {
+			e.unsup(ce, "rngOnly outside two-state clause")
+		}
+		src := fx.eval(st, ce.Args[0])
+		a := ts.BoundVar("rs", SInt)
+		nowH := e.heapGet(st, "rng.pos", ArrSort(SInt))
+		oldH := e.heapGet(fx.oldState, "rng.pos", ArrSort(SInt))
+		return []*Value{{T: t, Tm: ts.Forall([]*Term{a}, ts.Implies(ts.Ne(a, src.Tm), ts.Eq(ts.Select(nowH, a), ts.Select(oldH, a))))}}, true
 	case "isFresh":
 		// isFresh(x): slice or pointer x is nil or was allocated after function entry
 		v := fx.eval(st, ce.Args[0])
